@@ -392,6 +392,12 @@ def main(ck):
         "rows handed to PKIndexWriterImpl.Build are sorted lexicographically with nulls greatest, i.e. in the order in "
         "which PKIndexReaderImpl interprets the index (see NOTES.md: the writer-side sort order of nulls is not covered)",
         "row semantics of the condition: a null satisfies no comparison (lib/binaryfilterfunc drops nulls for every operator)",
+        "bloom filter: the hash function is abstract (Section variable); MATCHPHRASE row semantics = the engine's SimpleTokenFinder; premise "
+        "match_tokens (a matching value yields every token the reader derives from the phrase, at least one) - violated by today's pure-Go "
+        "build for gram / token-less phrases (finding C20-bloom-gram-phrase)",
+        "min-max skip index: MinMaxWriter writes nothing and MinMaxIndexReader.ReInit panics on the nil ReadFunc in production (probed on every "
+        "run), set skip index: not creatable (grammar) - neither can prune, no stream; VerticalFilterReader / detached OBS filter files and the "
+        "full-text / IP bloom tokenizers are not exercised",
     ]
     ck.cov["trusted_base"] = ["Coq 8.16.1 kernel + vm_compute (cases evaluation, Refuted witnesses, Examples)",
                               "no axioms (Print Assumptions: closed)", "Go harness cmd/c20 (generator, brute-force oracle, "
@@ -429,6 +435,15 @@ def main(ck):
             ck.broken.append("harness c20 bloom failed rc=%d cases=%d/%d: %s" % (rc, len(cs), nb, out[-400:]))
             return
         bcases += cs
+        m = re.search(r'^\{"skprobe":.*$', out, re.M)
+        if m:
+            pr = json.loads(m.group(0))["skprobe"]
+            ck.cov["skip_index_probe"] = pr
+            if pr.get("minmax_readfunc_nil") != "true" or "panics" not in pr.get("minmax", ""):
+                ck.broken.append("MinMaxIndexReader.ReInit no longer fails on a nil ReadFunc: the min-max skip index became functional "
+                                 "and needs its own stream in this check (not covered)")
+        else:
+            ck.broken.append("harness c20 bloom: skip-index probe line missing")
     if n:
         rc, cs, out = run_harness(ck, binp, ["gen", str(n)])
         if rc != 0 or len(cs) != n:
